@@ -6,6 +6,7 @@ executes it once on fresh objects under the controlled scheduler and returns
 an Observation; oracles live in the individual checks.
 """
 
+import collections.abc
 import gc
 import itertools
 import threading
@@ -25,13 +26,34 @@ _INSTRUMENTED = False
 DURATIONS = (0.05, 0.0, 0.5, 3.0)   # default first: 'too fast' => batch size grows
 
 
-class OrderedSet:
+class OrderedSet(collections.abc.MutableSet):
     """Stand-in for the builtin set inside joblib.parallel (rebound as module attribute `set`): iteration
     order of a real set of job objects depends on their addresses, which the explorer cannot own; here the
-    order is insertion order, or - an environment decision - the reverse."""
+    order is insertion order, or - an environment decision - the reverse.  The MutableSet mixin supplies the
+    rest of set's interface (clear, pop, update-style operators, comparisons) so that code using any of it
+    does not fail on the stand-in."""
 
     def __init__(self, it=()):
         self._d = dict.fromkeys(it)
+
+    def clear(self):
+        self._d.clear()
+
+    def copy(self):
+        return OrderedSet(self._d)
+
+    def update(self, *others):
+        for o in others:
+            for x in o:
+                self._d[x] = None
+
+    def difference_update(self, *others):
+        for o in others:
+            for x in o:
+                self._d.pop(x, None)
+
+    def __repr__(self):
+        return "OrderedSet(%r)" % (list(self._d),)
 
     def add(self, x):
         self._d[x] = None
